@@ -75,6 +75,7 @@ CONFIG = {
         "accounting_exact", "monitor_accepts_model", "deadline_sound", "within_budget_not_cancelled",
         "canceled_only_on_request", "reported_duration_exact", "deadline_wall_bound_progress",
         "deadline_wall_bound", "deadline_complete", "rearm_bounded", "rearm_unbounded_at_zero_threshold",
+        "timer_delivery", "timer_stop_result",
     ],
     "harnesses": [
         {"cmd": "clock", "cases_quick": 400, "cases_thorough": 12000, "shards_quick": 8, "shards_thorough": 32},
